@@ -272,6 +272,9 @@ def base_encodings(D):
     out["Sparse"] = lambda: E.SparseEncoding.from_dense(D.copy())
     out["RunLength"] = lambda: E.RunLengthEncoding.from_dense(D.reshape(-1).astype(np.int64)).reshape(D.shape)
     out["BinaryRunLength"] = lambda: E.BinaryRunLengthEncoding.from_dense(D.reshape(-1)).reshape(D.shape)
+    # counts stored as uint8: what binvox files hold
+    out["RunLength(uint8 counts)"] = lambda: E.RunLengthEncoding.from_dense(D.reshape(-1).astype(np.int64), encoding_dtype=np.uint8).reshape(D.shape)
+    out["BinaryRunLength(uint8 counts)"] = lambda: E.BinaryRunLengthEncoding.from_dense(D.reshape(-1), encoding_dtype=np.uint8).reshape(D.shape)
     return out
 
 
@@ -293,6 +296,8 @@ def views_for(shape):
     for f in sorted(facts):
         if f != tuple(shape):
             v.append(("reshape" + str(list(f)), lambda e, f=f: e.reshape(f), lambda a, f=f: a.reshape(f)))
+            # the same reshape with one dimension left to be inferred
+            v.append(("reshape" + str([f[0], -1]), lambda e, f=f: e.reshape((f[0], -1)), lambda a, f=f: a.reshape(f)))
     return v
 
 
